@@ -1398,3 +1398,34 @@ CASES += [
          old="""            self.cur = Some((0..self.num_vars).map(|_| false).collect());""",
          new="""            self.cur = Some(vec![false; self.num_vars]);"""),
 ]
+
+# ------------------------------------------------------------------ SH6 (condition_model)
+CASES += [
+    dict(name="sh6-model-original-diagram", file=B, rule="SH", props=["C01"], expect="SH6",
+         old="""        let mut bdd = bdd;
+        for m in m.assignment_iter() {
+            bdd = self.condition(bdd, m.label(), m.polarity());
+        }
+        bdd""",
+         new="""        let mut res = bdd;
+        for m in m.assignment_iter() {
+            res = self.condition(bdd, m.label(), m.polarity());
+        }
+        res"""),
+    dict(name="sh6-model-negated-polarity", file=B, rule="SH", props=["C01"], expect="SH6",
+         old="""            bdd = self.condition(bdd, m.label(), m.polarity());""",
+         new="""            bdd = self.condition(bdd, m.label(), !m.polarity());"""),
+    dict(name="sh6-model-skip-first", file=B, rule="SH", props=["C01"], expect="SH6",
+         old="""        for m in m.assignment_iter() {
+            bdd = self.condition(bdd, m.label(), m.polarity());""",
+         new="""        for m in m.assignment_iter().skip(1) {
+            bdd = self.condition(bdd, m.label(), m.polarity());"""),
+    dict(name="sh6-model-fold-ok", file=B, rule="SH", props=["C01"], expect=None,
+         old="""        let mut bdd = bdd;
+        for m in m.assignment_iter() {
+            bdd = self.condition(bdd, m.label(), m.polarity());
+        }
+        bdd""",
+         new="""        m.assignment_iter()
+            .fold(bdd, |acc, lit| self.condition(acc, lit.label(), lit.polarity()))"""),
+]
